@@ -49,7 +49,9 @@ def tomo_case(draw, n=None):
         # heralds declared directly on the base circuit (outside the qubit modes)
         prog = dict(prog)
         if draw(st.booleans()):
-            prog["pad"] = draw(st.sampled_from([[1, 0], [0, 1], [1, 1], [2, 0]]))
+            prog["pad"] = draw(st.sampled_from([[1, 0], [0, 1], [1, 1], [2, 0], [1, 1], [1, 2]]))
+            if min(prog["pad"]) >= 1 and draw(st.booleans()):
+                prog["cross"] = True       # first and last mode heralded crosswise, with different photon numbers
         else:
             # ... at arbitrary positions, also between the two rails of a qubit
             k = draw(st.integers(1, 2))
@@ -59,7 +61,10 @@ def tomo_case(draw, n=None):
             "scale_seed": draw(st.one_of(st.none(), st.integers(0, 10 ** 6))),
             "n_args": draw(st.sampled_from([0, 0, 1, 2])), "args_given": draw(st.booleans()),
             # how the user's callback treats what it is handed / what it hands back
-            "cb_mode": draw(st.sampled_from(["plain", "plain", "consume", "scribble", "np32", "np64"]))}
+            "cb_mode": draw(st.sampled_from(["plain", "plain", "consume", "scribble", "np32", "np64"])),
+            # the base circuit may contain a Parameter which the callback itself sets before it runs the circuits (a
+            # sweep driven from inside the experiment): [value at construction, value set by the callback]
+            "param": draw(st.one_of(st.none(), st.none(), st.sampled_from([[0.0, 1.3], [0.4, -2.0], [1.0, 0.0]])))}
 
 
 def run_tomo(case):
@@ -70,6 +75,13 @@ def run_tomo(case):
     base = call("build base", qubits.build_real, prog)
     V = qubits.reference_unitary(prog)
     received = []
+    live = None
+    if case.get("param"):
+        live = lw.Parameter(case["param"][0])
+        pg = lw.Circuit(2)
+        pg.ps(1, live)
+        qubits.add_on_qubit(base, prog, 0, pg)
+        V = qubits.on_qubit(n, 0, np.diag([1, np.exp(1j * case["param"][1])])) @ V
 
     # optional extra arguments for the callback (experiment_args): 0-2 distinct objects, passed through untouched
     extra = [("arg", k) for k in range(case.get("n_args", 0))]
@@ -79,6 +91,8 @@ def run_tomo(case):
             raise Violation(f"experiment callback received extra arguments {args!r}, experiment_args was {extra!r}",
                             key="experiment-args")
         mode = case.get("cb_mode", "plain")
+        if live is not None:
+            live.set(case["param"][1])
         received.append([c.copy() for c in circuits] if mode == "scribble" else list(circuits))
         us, ss = case.get("ulp_seed"), case.get("scale_seed")
         if mode == "consume":
@@ -107,7 +121,12 @@ def run_tomo(case):
         tomo = call("StateTomography()", tomography.StateTomography, n, base, experiment, experiment_args=extra)
     else:
         tomo = call("StateTomography()", tomography.StateTomography, n, base, experiment)
-    snap = snapshot(base)
+    if live is not None:
+        live.set(case["param"][1])         # the reference snapshot is the base circuit at the value the callback will set
+        snap = snapshot(base)
+        live.set(case["param"][0])
+    else:
+        snap = snapshot(base)
     labels = set()
 
     tol_rho, tol_f = (1e-5, 1e-4) if case.get("cb_mode") == "np32" else (1e-8, 1e-6)
@@ -139,7 +158,50 @@ def run_tomo(case):
             for q, m in enumerate(stg):
                 qubits.add_on_qubit(e, prog, q, lw.Unitary(MEAS[m]))      # basis change on the rails of qubit q
             expected[stg] = e.U_full
+        cross = bool(prog.get("cross"))
+        if cross:
+            # crossed heralds: the requested circuits may place and route the heralded modes as they like, so they are
+            # compared through what can be observed - the matrix of heralded dual-rail amplitudes, up to a phase per
+            # output pattern - instead of through U_full and the herald dictionaries
+            from vlib.refmodel import real_heralded_amp
+
+            def amp_matrix(circ):
+                outs = qubits.dual_rail_outputs(n)
+                return np.array([[real_heralded_amp(circ, vin, o) for vin in outs] for o in outs])
+            exp_amp = {}
+            for stg in settings:
+                e = base.copy()
+                for q, m in enumerate(stg):
+                    qubits.add_on_qubit(e, prog, q, lw.Unitary(MEAS[m]))
+                exp_amp[stg] = amp_matrix(e)
         for c in circs:
+            if cross:
+                if (sorted(c.heralds["input"].values()) != sorted(base.heralds["input"].values())
+                        or sorted(c.heralds["output"].values()) != sorted(base.heralds["output"].values())
+                        or c.input_modes != 2 * n):
+                    raise Violation("a requested circuit does not keep the base circuit's herald photon numbers / size",
+                                    key="circuit-not-base-plus-measurement")
+                Mc = amp_matrix(c)
+                match = None
+                for stg, Me in exp_amp.items():
+                    ok = True
+                    for row_c, row_e in zip(Mc, Me):
+                        ne = np.linalg.norm(row_e)
+                        if ne < 1e-9:
+                            ok = ok and np.linalg.norm(row_c) < 1e-9
+                            continue
+                        ph = np.vdot(row_e, row_c) / ne ** 2
+                        ok = ok and abs(abs(ph) - 1) < 1e-9 and np.abs(row_c - ph * row_e).max() < 1e-9
+                    if ok:
+                        match = stg
+                        break
+                if match is None:
+                    raise Violation(f"{tag}: a requested circuit does not act as the current base circuit followed by "
+                                    f"single-qubit basis changes", key="circuit-not-base-plus-measurement")
+                if match in used:
+                    raise Violation(f"measurement setting {match} requested twice", key="setting-duplicated")
+                used.add(match)
+                continue
             if c.heralds != base.heralds or c.input_modes != 2 * n:
                 raise Violation("a requested circuit does not keep the base circuit's heralds / size",
                                 key="circuit-not-base-plus-measurement")
@@ -205,6 +267,10 @@ def run_tomo(case):
         labels.add("heralded-gate")
     if "pad" in prog or "hpos" in prog:
         labels.add("heralds-declared-on-base-circuit")
+    if prog.get("cross"):
+        labels.add("crossed-heralds-with-different-photon-numbers")
+    if live is not None:
+        labels.add("parameter-set-by-the-callback")
     if "hpos" in prog and any(m % 2 == 1 and m < 2 * n + len(prog["hpos"]) for m in prog["hpos"]):
         labels.add("herald-mode-inside-the-qubit-register")
     if case.get("scale_seed") is not None:
